@@ -14,7 +14,9 @@ DiffFields(a, b) == {f \in (DOMAIN a) \cup (DOMAIN b) : ~(f \in DOMAIN a /\ f \i
 Denoms(s) == DOMAIN s.l1.bal[L1!Esc(B)]
 Users(s) == {a \in DOMAIN s.l1.bal : a \in DOMAIN s.l2.bal} \ {"x", "gov"}
 Held(s, d) == SumIdx([a \in Users(s) |-> s.l1.bal[a][d] + (IF Has(s.l2.bal[a], L2D(d)) THEN s.l2.bal[a][L2D(d)] ELSE 0)], Users(s))
-Value(s, d) == Held(s, d) + InFlight(s, d) + Unpaid(s, d)
+(* value the users moved into OTHER bridges of the same L1 (their L2s are not part of the run) stays locked in those escrows *)
+Elsewhere(s, d) == SumIdx([a \in {x \in DOMAIN s.l1.bal : x \in {"esc2", "esc3"}} |-> s.l1.bal[a][d]], {x \in DOMAIN s.l1.bal : x \in {"esc2", "esc3"}})
+Value(s, d) == Held(s, d) + InFlight(s, d) + Unpaid(s, d) + Elsewhere(s, d)
 RunStart[i \in 1..Len(Trace)] == IF IsReset(Trace[i]) THEN i ELSE 0
 StartOf(i) == CHOOSE j \in 1..i : IsReset(Trace[j]) /\ \A k \in (j + 1)..i : ~IsReset(Trace[k])
 
